@@ -15,14 +15,28 @@ from .terms import T, C, sym, show, binop, un, truthy, is_const, length, NONE, s
 
 
 # ---------------------------------------------------------------------------- slice-length axioms
+_SLA_CACHE = {}
+_FA_CACHE = {}
+
+
+def _direct_slice_lens(t):
+    r = _SLA_CACHE.get(t)
+    if r is None:
+        r = tuple(s for s in subterms(t) if s.k == "un" and s.a[0] == "len" and s.a[1].k == "slice")
+        if len(_SLA_CACHE) > 200000:
+            _SLA_CACHE.clear()
+        _SLA_CACHE[t] = r
+    return r
+
+
 def _slice_len_atoms(terms):
     out = []
     seen = set()
     work = list(terms)
     while work:
         t = work.pop()
-        for s in subterms(t):
-            if s.k == "un" and s.a[0] == "len" and s.a[1].k == "slice" and s not in seen:
+        for s in _direct_slice_lens(t):
+            if s not in seen:
                 seen.add(s)
                 out.append(s)
                 sl = s.a[1]
@@ -74,6 +88,16 @@ def _disj(xs):
 # ---------------------------------------------------------------------------- relevance filter
 def fact_atoms(t):
     """atoms of the linear literals of a boolean term"""
+    r = _FA_CACHE.get(t)
+    if r is None:
+        r = frozenset(_fact_atoms(t))
+        if len(_FA_CACHE) > 200000:
+            _FA_CACHE.clear()
+        _FA_CACHE[t] = r
+    return r
+
+
+def _fact_atoms(t):
     t = truthy(t)
     out = set()
     stack = [t]
@@ -129,10 +153,50 @@ def relevant(facts, goal, max_rounds=6):
     return [f for (f, _a), c in zip(fa, chosen) if c]
 
 
-def prove(facts, goal):
+def contradictory(facts):
+    """syntactic check: some fact and its negation are both present (dead path)"""
+    fs = set(facts)
+    for f in facts:
+        if un("not", f) in fs:
+            return True
+        if f.k == "op" and f.a[0] == "and":
+            # a conjunction whose conjunct's negation is a fact
+            stack = [f]
+            while stack:
+                x = stack.pop()
+                if x.k == "op" and x.a[0] == "and":
+                    stack += [x.a[1], x.a[2]]
+                elif un("not", x) in fs:
+                    return True
+    return False
+
+
+def in_loop(r):
+    """does a read / raise record depend on a loop-summary symbol (its index is a havocked loop variable)?"""
+    def has(t):
+        return any(s.k == "sym" and isinstance(s.a[0], str) and s.a[0].startswith(("loop(", "after(", "elem(", "try(", "pop", "popleft"))
+                   for s in subterms(t))
+    for key in ("buf", "lo", "hi"):
+        v = r.get(key)
+        if isinstance(v, T) and has(v):
+            return True
+    return False
+
+
+def prove(facts, goal, max_cases=None):
     """entailment with slice-length axioms and relevance filtering.
     -> ('proved'|'refutable'|'unknown', model-or-reason)"""
+    if max_cases is not None:
+        from . import linear as _lin
+        old = _lin.MAX_CASES
+        _lin.MAX_CASES = max_cases
+        try:
+            return prove(facts, goal)
+        finally:
+            _lin.MAX_CASES = old
     facts = [truthy(f) for f in facts]
+    if contradictory(facts):
+        return "proved", None
     rel = relevant(facts, goal)
     ax = [slice_axiom(s) for s in _slice_len_atoms(rel + [goal])]
     # axioms may connect further facts
@@ -249,13 +313,15 @@ def check_xbuf(ck, it, func, rule="X-BUF", roots=None, skip_funcs=()):
         n += 1
         exc = "struct.error" if r["kind"] == "unpack" else ("IndexError" if r["kind"] == "idx" else "silent truncation")
         cons = f"read `{r['text'][:70]}` in {r['func']} stays inside the buffer"
-        st, m = prove(r["facts"], g)
+        st, m = prove(r["facts"], g, max_cases=12 if in_loop(r) else None)
         if st == "proved":
             ck.proved(rule, func, cons, f"guards entail {show(g)[:120]}")
         elif st == "refutable":
             ck.refuted(rule, func, cons, f"{exc}: guards {[show(f)[:50] for f in relevant(r['facts'], g)][-4:]} admit "
                        f"{{{', '.join(f'{show(k)[:40]}={v}' for k, v in list(m.items())[:6])}}} which violates {show(g)[:100]} "
                        f"(call path {'>'.join(r['stack'][-3:])})", witness=m)
+        elif in_loop(r):
+            ck.assume(rule, func, cons, f"read inside a summarised loop; no inductive invariant is inferred for its index ({str(m)[:80]})")
         else:
             ck.unknown(rule, func, cons, f"cannot decide {show(g)[:100]}: {m}")
     return n
@@ -279,12 +345,14 @@ def check_xdecl(ck, it, func, root, N, rule="X-DECL", extra_facts=(), skip=lambd
         seen.add(key)
         n += 1
         cons = f"read `{r['text'][:70]}` in {r['func']} ends inside the declared length"
-        st, m = prove(list(r["facts"]) + list(extra_facts), g)
+        st, m = prove(list(r["facts"]) + list(extra_facts), g, max_cases=12 if in_loop(r) else None)
         if st == "proved":
             ck.proved(rule, func, cons, f"{show(hi)[:80]} <= {show(N)[:60]}")
         elif st == "refutable":
             ck.refuted(rule, func, cons, f"octets up to {show(hi)[:80]} are read although the unit declares {show(N)[:60]} "
                        f"(model {{{', '.join(f'{show(k)[:40]}={v}' for k, v in list(m.items())[:6])}}})", witness=m)
+        elif in_loop(r):
+            ck.assume(rule, func, cons, f"read inside a summarised loop; no inductive invariant is inferred for its index ({str(m)[:80]})")
         else:
             ck.unknown(rule, func, cons, f"cannot decide {show(g)[:120]}: {m}")
     return n
